@@ -1160,6 +1160,7 @@ func deps(P *Program, v ssa.Value) map[ssa.Value]bool {
 						for _, a := range callArgs(w)[1:] {
 							push(a)
 						}
+						push(w) // the result is the same object: `q.Mul(q, r).Mul(q, s)` goes on writing it
 					}
 					// copy(dst, src)
 					if isCallTo(w, "builtin:copy") && callArgs(w)[0] == x {
